@@ -30,11 +30,11 @@ Hypothesis ss0_fresh : ss_cursor ss0 = None.
    EVERY history of key events and public operations, from every layout, dictionary and
    conversion oracle. *)
 Theorem C05_cursor_in_range_every_history : forall ops (e e' : editor D SY),
-  Inv dops sops dict_ok ss0 e -> run dops sops conv e ops = Ok e' ->
+  Forall op_ok ops -> Inv dops sops dict_ok ss0 e -> run dops sops conv e ops = Ok e' ->
   cursor (com (sh e')) <= ce_len (com (sh e')) /\ wf_comp (inner (com (sh e'))).
 Proof.
-  intros ops e e' I H.
-  pose proof (run_inv dops sops conv dict_ok ok_lookup ok_add ok_update ok_remove alt_stable ss0 ss0_good ss0_fresh ops e e' I H) as [[[W C] _] _].
+  intros ops e e' Hops I H.
+  pose proof (run_inv dops sops conv dict_ok ok_lookup ok_add ok_update ok_remove alt_stable ss0 ss0_good ss0_fresh ops e e' Hops I H) as [[[W C] _] _].
   split; assumption.
 Qed.
 
